@@ -177,6 +177,7 @@ def generate_cmp(g: dict, im: dict, edges: str = 'exact') -> tuple:
     if 'error' in g or 'error' in im:
         ge, ie = g.get('error'), im.get('error')
         ge = ERRMAP.get(ge, ge)
+        if ie is not None: ie = ie.split(':')[0]          # (`impl_generate` appends the message to a class it does not know)
         return (None if ge == ie else f'on the outcome: generated code {ge or "returns"}, implementation {ie or "returns"}'), []
     gg = g['graph']
     gn = _gen_nodes(gg)
@@ -270,6 +271,9 @@ def generate_measure(cases: list, edges: str = 'set') -> dict:
                     and set(map(tuple, im['edges'])) == set(map(tuple, im.get('parent_edges', im['edges'])))
             # (the hand model lists every edge once per link; the multiplicities of the real lists - which the generated code
             # reproduces - are not part of C01 / C02 and are not compared on this side)
+        # the oracle of C02 on the names: full names pairwise distinct (the hand model is asked about the names the - possibly
+        # mutated - model chose, so a naming defect shows only here)
+        if 'error' not in im and len({n['full_name'] for n in im['nodes']}) < len(im['nodes']): hsame = False
         prob, _ = generate_cmp(g, im, edges=edges)
         if prob:
             st['gen_ne_impl'] += 1; st['examples'].append(['gen!=impl', {'spec': s, 'inst': m, 'churn_seed': cs, 'what': prob}])
